@@ -38,7 +38,8 @@ WantAlive(ev, prev) ==
       cr == SelectSeq(ops, LAMBDA o : o.o = "create")
       de == SelectSeq(ops, LAMBDA o : o.o = "delete")
       liveH == initLive \cup {cr[k].h : k \in 1..Len(cr)}
-  IN (liveH \ {de[k].h : k \in {j \in 1..Len(de) : de[j].h \in liveH}}) \ PostDeleted(ev)
+  IN ((liveH \ {de[k].h : k \in {j \in 1..Len(de) : de[j].h \in liveH}}) \ PostDeleted(ev))
+     \cup (IF "lazy_created" \in DOMAIN ev THEN SeqToSet(ev.lazy_created) ELSE {})
 
 Check(ev, prev) ==
   LET ops == Ops(ev)
@@ -50,7 +51,14 @@ Check(ev, prev) ==
       de == SelectSeq(ops, LAMBDA o : o.o = "delete")
       liveH == initLive \cup created
       requested == {de[k].h : k \in {j \in 1..Len(de) : de[j].h \in liveH}}
-      wantAlive == (liveH \ requested) \ PostDeleted(ev)
+      \* entities created through exclusive access by lazy actions while maintain ran
+      lzc == IF "lazy_created" \in DOMAIN ev THEN SeqToSet(ev.lazy_created) ELSE {}
+      wantAlive == ((liveH \ requested) \ PostDeleted(ev)) \cup lzc
+      \* lazily queued batch insertions: every request whose entity is alive after maintain has been applied
+      \* (each entity gets at most one request), the others lapse
+      li == SelectSeq(ops, LAMBDA o : o.o = "lazyins")
+      reqs == UNION {SeqToSet(li[k].items) : k \in 1..Len(li)}
+      wantComps == {r \in reqs : r[1] \in wantAlive}
       jo == SelectSeq(ops, LAMBDA o : o.o = "join")
       lz == SelectSeq(ops, LAMBDA o : o.o = "lazy")
       queued == [k \in 1..Len(lz) |-> lz[k].tag]
@@ -84,6 +92,11 @@ Check(ev, prev) ==
         THEN {F("C10", "deleting entities created in this frame (alive, not merged yet) through exclusive access: wrong result (handles, result)", <<ev.post.hs, ev.post.ok>>)} ELSE {})
   \cup (IF SeqToSet(ev.after.alive) # wantAlive
         THEN {F("C10", "after maintain: alive # initial + created - requested (got, expected)", <<ev.after.alive, SortedById(wantAlive)>>)} ELSE {})
+  \cup (IF lzc \cap (initAll \cup created) # {} \/ Cardinality(lzc) # (IF "lazy_created" \in DOMAIN ev THEN Len(ev.lazy_created) ELSE 0)
+        THEN {F("C10", "an entity created by a lazy action collides with another handle", ev.lazy_created),
+              F("C01", "an entity created by a lazy action collides with another handle", ev.lazy_created)} ELSE {})
+  \cup (IF "comps" \in DOMAIN ev.after /\ SeqToSet(ev.after.comps) # wantComps
+        THEN {F("C10", "lazily queued batch insertions: a request for an entity that is alive after maintain was lost, or a lapsed one applied (got, expected)", <<ev.after.comps, wantComps>>)} ELSE {})
   \cup (IF ev.after.join # SortedById(wantAlive)
         THEN {F("C10", "after maintain: entities join (got, expected)", <<ev.after.join, SortedById(wantAlive)>>)} ELSE {})
   \cup {F("C10", "a join during the run missed a live entity or yielded an unknown handle", jo[k].hs)
